@@ -738,6 +738,7 @@ type FuncContract struct {
 	Uses      []string // axioms made available to this function's obligations
 	IsLemma   bool     // no function body: the ensures clauses are proved from the used axioms alone
 	Exclusive bool     // runs while the receiver is not shared between goroutines (constructors, the sequential phase): guard obligations do not apply
+	Abstracts []string // abstractions of the encoding this contract was written with (e.g. "select")
 	UFArith   bool     // symbolic float products / quotients are uninterpreted (fmulU / fdivU)
 	Induct    string   // smtlemma: induction variable (Int, >= 0)
 	RawVars   string   // smtlemma: SMT binder list of the universally quantified variables, e.g. "(a (Array Int Int)) (o Int)"
@@ -770,7 +771,7 @@ var clauseKeywords = map[string]bool{
 	"invariant": true, "trusted": true, "inline": true, "mode": true, "params": true,
 	"maypanic": true, "fdef": true, "pure": true, "noalloc": true, "set": true, "reason": true,
 	"uses": true, "lemma": true, "exit": true, "free_ensures": true, "ensures_local": true,
-	"atomic": true, "exclusive": true, "ufarith": true, "smtlemma": true, "induct": true, "vars": true, "claim": true, "pattern": true, "smtaxiom": true, "smtdef": true, "guarded": true, "assert": true,
+	"atomic": true, "exclusive": true, "abstracts": true, "ufarith": true, "smtlemma": true, "induct": true, "vars": true, "claim": true, "pattern": true, "smtaxiom": true, "smtdef": true, "guarded": true, "assert": true,
 }
 
 type rawLine struct {
@@ -930,6 +931,12 @@ func ParseSpecFile(path, pkgPath string) (*SpecFile, error) {
 				cur.UFArith = true
 			case "exclusive":
 				cur.Exclusive = true
+			case "abstracts":
+				for _, a := range strings.Split(rest, ",") {
+					if a = strings.TrimSpace(a); a != "" {
+						cur.Abstracts = append(cur.Abstracts, a)
+					}
+				}
 			case "pure":
 				cur.Pure = true
 			case "noalloc":
